@@ -37,6 +37,7 @@ def _alphabet() -> Dict[str, Dict[str, Any]]:
     op("linear:F_nobias", "F.linear", "F.linear({h}, self.w{i})", lambda h, m, i: ((h, g(m, "w", i)), {}), W)
     op("linear:F_bias_pos", "F.linear", "F.linear({h}, self.w{i}, self.b{i})", lambda h, m, i: ((h, g(m, "w", i), g(m, "b", i)), {}), WB)
     op("linear:F_bias_kw", "F.linear", "F.linear({h}, self.w{i}, bias=self.b{i})", lambda h, m, i: ((h, g(m, "w", i)), {"bias": g(m, "b", i)}), WB)
+    op("linear:F_weight_kw", "F.linear", "F.linear({h}, weight=self.w{i}, bias=self.b{i})", lambda h, m, i: ((h,), {"weight": g(m, "w", i), "bias": g(m, "b", i)}), WB)
     op("linear:nn", "F.linear", "self.lin{i}({h})", lambda h, m, i: ((h, g(m, "lin", i).weight, g(m, "lin", i).bias), {}),
        ["self.lin{i} = nn.Linear(D, D)"], module=True)
     op("linear:nn_nobias", "F.linear", "self.lin{i}({h})", lambda h, m, i: ((h, g(m, "lin", i).weight, None), {}),
